@@ -124,3 +124,7 @@ R.DEFAULT_POLICIES.update({
     "SourceFile._value_to_code": "inline",
     "GenericValue._file": "inline",
 })
+
+R.DEFAULT_POLICIES.update({
+    "Flags.all": "inline", "Flags.__init__": "inline", "Flags.__iter__": "inline", "Flags.to_set": "inline",
+})
